@@ -26,18 +26,23 @@ pub fn enc(s: &str) -> String {
 }
 pub fn plain(s: &str) -> String { console::strip_ansi_codes(s).to_string() }
 
+/// the nearest character boundary at or before byte offset `at`
+pub fn boundary(s: &str, mut at: usize) -> usize { while !s.is_char_boundary(at) { at -= 1; } at }
+
 fn text(rng: &mut Rng, w: u16, multiline: bool) -> String {
     let w = w as u64;
     let len = match rng.below(10) { 0 => 0, 1 => 1, 2 => w.saturating_sub(1), 3 => w, 4 => w + 1, 5 => 2 * w, 6 => 2 * w + 1, _ => rng.below(2 * w + 3) };
     let mut s: String = (0..len).map(|_| (b'a' + rng.below(26) as u8) as char).collect();
+    // double-width characters (two columns each): never on a one-column terminal, which cannot show them
+    if w >= 2 && rng.chance(1, 6) { s = s.chars().map(|c| if rng.chance(1, 3) { *rng.pick(&['日', '本', '語']) } else { c }).collect(); }
     if multiline && rng.chance(1, 4) {
         let k = rng.below(3) + 1;
-        for _ in 0..k { let at = rng.below(s.len() as u64 + 1) as usize; s.insert(at, '\n'); }
+        for _ in 0..k { let at = boundary(&s, rng.below(s.len() as u64 + 1) as usize); s.insert(at, '\n'); }
     }
     // colour sequences have no width: around the text, between lines, or as the whole text
     if rng.chance(1, 8) {
         let k = rng.below(3) + 1;
-        let mut at: Vec<usize> = (0..k).map(|_| rng.below(s.len() as u64 + 1) as usize).collect();
+        let mut at: Vec<usize> = (0..k).map(|_| boundary(&s, rng.below(s.len() as u64 + 1) as usize)).collect();
         at.sort(); at.reverse();   // insert from the back so that no sequence lands inside another
         for a in at { s.insert_str(a, *rng.pick(&["\x1b[32m", "\x1b[0m", "\x1b[1;31m"])); }
     }
@@ -112,10 +117,25 @@ pub fn encode(c: &Case, ops: &[String]) -> String {
     s
 }
 
-fn wrap(line: &str, w: usize) -> Vec<String> {
+/// the rows a terminal of `w` columns shows for `line`: a double-width character that does not fit into the rest of
+/// a row moves to the next row as a whole, zero-width characters stay with their predecessor
+pub fn wrap(line: &str, w: usize) -> Vec<String> {
     let cs: Vec<char> = plain(line).chars().collect();
     if cs.is_empty() { return vec![String::new()]; }
-    cs.chunks(w).map(|c| c.iter().collect::<String>().trim_end().to_string()).collect()
+    let mut rows: Vec<String> = vec![String::new()];
+    let mut col = 0usize;
+    for c in cs {
+        let cw = unicode_width::UnicodeWidthChar::width(c).unwrap_or(0);
+        if cw > 0 && col + cw > w { rows.push(String::new()); col = 0; }
+        rows.last_mut().unwrap().push(c);
+        col += cw;
+    }
+    rows.into_iter().map(|r| r.trim_end().to_string()).collect()
+}
+/// finding F5: the crate counts `ceil(columns / w)` rows for a line; with double-width characters the terminal may need more
+pub fn straddles(line: &str, w: usize) -> bool {
+    let cols = console::measure_text_width(line);
+    wrap(line, w).len() > std::cmp::max(1, (cols + w - 1) / w)
 }
 
 fn show_rows(rows: &[String]) -> String { rows.iter().map(|r| r.chars().map(|c| (c as u32).to_string()).collect::<Vec<_>>().join(".")).collect::<Vec<_>>().join("|") }
